@@ -15,6 +15,8 @@ SHAPES = {
     "holed": [((0, 0), [("L", (8, 0)), ("L", (8, 8)), ("L", (0, 8)), ("Z",)]),
               ((2, 2), [("L", (2, 5)), ("L", (6, 5)), ("L", (6, 2)), ("Z",)])],
     "open": [((1, 2), [("L", (4, 6)), ("C", (5, 8), (8, 8), (9, 3))])],
+    "pill": [((2, 1), [("L", (6, 1)), ("A", 2, 2, 0, 0, 1, (8, 3)), ("L", (8, 7)), ("A", 2, 2, 0, 0, 1, (6, 9)),
+                      ("L", (2, 9)), ("A", 2, 2, 0, 0, 1, (0, 7)), ("L", (0, 3)), ("A", 2, 2, 0, 0, 1, (2, 1)), ("Z",)])],
     "zig": [((0, 5), [("L", (2, 1)), ("L", (4, 5)), ("L", (6, 1)), ("L", (8, 5)), ("L", (8, 7)), ("L", (0, 7)), ("Z",)])],
 }
 
@@ -44,7 +46,8 @@ def tf(A, p):
 def apply(A, shape):
     out = []
     for start, segs in shape:
-        out.append((tf(A, start), [tuple([s[0]] + [tf(A, p) for p in s[1:]]) for s in segs]))
+        out.append((tf(A, start), [(s[:6] + (tf(A, s[6]),)) if s[0] == "A" else
+                                   tuple([s[0]] + [tf(A, p) for p in s[1:]]) for s in segs]))
     return out
 
 
@@ -55,10 +58,10 @@ def perturb(shape, which, delta):
         nsegs = []
         for s in segs:
             pts = []
-            for p in s[1:]:
+            for p in (s[6:] if s[0] == "A" else s[1:]):
                 k += 1
                 pts.append((p[0] + delta, p[1]) if k == which else p)
-            nsegs.append(tuple([s[0]] + pts))
+            nsegs.append((s[:6] + tuple(pts)) if s[0] == "A" else tuple([s[0]] + pts))
         out.append((start, nsegs))
     return out
 
@@ -70,6 +73,9 @@ def d_of(shape):
         for s in segs:
             if s[0] == "Z":
                 parts.append("Z")
+            elif s[0] == "A":
+                parts.append("A%r %r %r %d %d %r,%r" % (float(s[1]), float(s[2]), float(s[3]), s[4], s[5],
+                                                        float(s[6][0]), float(s[6][1])))
             else:
                 parts.append(s[0] + " ".join("%r,%r" % (float(p[0]), float(p[1])) for p in s[1:]))
     return " ".join(parts)
@@ -95,12 +101,18 @@ def rel_form(shape):
                 segs.append(["z"])
                 cur = sub
                 continue
+            if s[0] == "A":
+                # <<"A", dx, dy>> : end point vector; the radii go in a parallel list (circular arcs only)
+                segs.append(["A", mil(s[6][0] - cur[0]), mil(s[6][1] - cur[1])])
+                cur = s[6]
+                continue
             vec = [s[0]]
             for p in s[1:]:
                 vec += [mil(p[0] - cur[0]), mil(p[1] - cur[1])]
             segs.append(vec)
             cur = s[-1]
-    return {"m": [mil(first[0]), mil(first[1])], "segs": segs}
+    radii = [[mil(s[1]), mil(s[2])] for _, ss in shape for s in ss if s[0] == "A"]
+    return {"m": [mil(first[0]), mil(first[1])], "segs": segs, "radii": radii}
 
 
 def job(j):
@@ -127,17 +139,41 @@ def jobs_for(tier, rng):
     names = list(SHAPES)
     for n in names:
         s = SHAPES[n]
-        npts = sum(len(seg) - 1 for _, segs in s for seg in segs)
+        npts = sum((1 if seg[0] == "A" else len(seg) - 1) for _, segs in s for seg in segs)
         for tol in tols:
             jobs.append((s, s, tol, "identity", "%s=self" % n))
             for tn, A in TRANSFORMS.items():
+                if n == "pill" and not (tn.startswith("translate") or tn.startswith("rot90") or tn.startswith("rot180")
+                                        or tn == "rot345" or tn.startswith("mirror")):
+                    continue
                 t = apply(A, s)
+                if n == "pill" and tn.startswith("mirror"):
+                    t = [(st, [(sg[:5] + (1 - sg[5],) + sg[6:]) if sg[0] == "A" else sg for sg in sgs]) for st, sgs in t]
                 jobs.append((s, t, tol, "found" if tn.startswith("translate") else "any", "%s->%s" % (n, tn)))
                 # near misses: one coordinate off by 1.5 tol / 0.5 tol
                 for which in ([1, npts] if tier == "quick" else range(1, npts + 1)):
                     for fct in (1.5, 3.0, 0.5):
                         jobs.append((s, perturb(t, which, F(fct) * F(tol).limit_denominator(1000)), tol, "any",
                                      "%s->%s miss%s@%d" % (n, tn, fct, which)))
+    # same vertices, wrong arc radii: a rotation / translation must not be reported for these
+    for tn in ("translate", "rot90", "rot345", "rot180+t"):
+        t = apply(TRANSFORMS[tn], SHAPES["pill"])
+        for fct in (F(3, 5), F(4, 5), F(3, 2)):
+            wrong = [(st, [(sg[:1] + (sg[1] * fct, sg[2] * fct) + sg[3:]) if sg[0] == "A" else sg for sg in sgs])
+                     for st, sgs in t]
+            for tol in tols:
+                jobs.append((SHAPES["pill"], wrong, tol, "any", "pill->%s radii x%s" % (tn, fct)))
+    extra_contour = ((20, 20), [("L", (24, 20)), ("L", (22, 25)), ("Z",)])
+    for n in names:
+        s = SHAPES[n]
+        for tn in ("translate", "rot90", "scale2"):
+            t = apply(TRANSFORMS[tn], s)
+            for tol in tols:
+                jobs.append((s, t + [extra_contour], tol, "any", "%s->%s+contour" % (n, tn)))
+                jobs.append((s + [extra_contour], t, tol, "any", "%s+contour->%s" % (n, tn)))
+                if t[0][1][-1] == ("Z",):
+                    longer = [(t[0][0], t[0][1][:-1] + [("L", (30, 31)), ("Z",)])] + t[1:]
+                    jobs.append((s, longer, tol, "any", "%s->%s+edge" % (n, tn)))
     for a in names:
         for b in names:
             if a != b:
